@@ -787,6 +787,11 @@ def sentinel_table(est_kind, N=None):
         t["max"] = {"n0": {"-inf"}, "n1": {X}, "const": {X}}
     elif est_kind == "Quantile":
         t["quantile"] = {"n0": {NANC}, "n1": {X}}
+    # Estimate::estimate() is a statistic accessor too: it reports the headline statistic
+    head = {"Mean": "mean", "Variance": "population_variance", "Skewness": "skewness", "Kurtosis": "kurtosis",
+            "Min": "min", "Max": "max", "Quantile": "quantile"}.get(est_kind)
+    if head in t:
+        t["estimate"] = t[head]
     return t
 
 
